@@ -977,6 +977,58 @@ example : ∀ a b : Fin 4, pauliString (α := Int) 0 2 12 a b
 end Toq.C06
 end KrausConstructors
 
+/-! ## ties between the driver's model functions and the specification -/
+section Ties
+open Toq.ChannelProps Toq.ChanPropSpec Matrix
+namespace Toq.C06
+open Toq.ChanPropProofs
+
+/-- The Choi matrix that the driver forms from a paired Kraus list `[[A_1, B_1], …]` (`choiOfPairs`) is, entry by
+    entry, the Choi matrix of the map `X ↦ Σ_k A_k X B_kᴴ`. -/
+theorem choiOfPairs_eq_choi (as bs : List (Toq.ChannelOps.Mat QI)) (hl : as.length = bs.length) (di dO : Nat)
+    (i j : Fin di) (a b : Fin dO) :
+    (choiOfPairs as bs dO dO (i.val * dO + a.val) (j.val * dO + b.val)).toC
+      = choi (pairMap (fun k : Fin as.length => matC di dO as[k])
+          (fun k : Fin as.length => matC di dO (bs[k.val]'(hl ▸ k.isLt)))) (i, a) (j, b) := by
+  rw [choi_pairMap_apply]
+  unfold choiOfPairs
+  rw [foldl_add_toC, QI.toC_zero, zero_add, List.map_map, pair_mod, pair_div, pair_mod, pair_div]
+  rw [← sum_zip_eq_sum_fin (fun A B => matC di dO A a i * star (matC di dO B b j)) as bs hl]
+  congr 1
+  apply List.map_congr_left
+  intro ab _
+  simp only [Function.comp_apply, QI.toC_mul, QI.toC_conj, matC]
+  rfl
+
+/-- The exact Choi matrix that `choiOfArg` hands to the deciders denotes (through `toChoi`) the Choi matrix of the
+    map `X ↦ Σ_k A_k X B_kᴴ` given by the Kraus pair list. -/
+theorem choiOfArg_denotes (as bs : List (Toq.ChannelOps.Mat QI)) (hl : as.length = bs.length) (di dO : Nat) :
+    toChoi (EMat.ofFn fun p q : Fin (di * dO) => choiOfPairs as bs dO dO p.val q.val)
+      = choi (pairMap (fun k : Fin as.length => matC di dO as[k])
+          (fun k : Fin as.length => matC di dO (bs[k.val]'(hl ▸ k.isLt)))) := by
+  ext ⟨i, a⟩ ⟨j, b⟩
+  rw [← choiOfPairs_eq_choi as bs hl di dO i j a b]
+  simp only [toChoi, EMat.get_ofFn]
+  rfl
+
+/-- Evaluating a map from its Choi matrix entry by entry (`actOfChoi`) is the application of the linear map
+    `ofChoi J` with that Choi matrix. -/
+theorem actOfChoi_eq (J X : Nat → Nat → ℂ) (di dO : Nat) :
+    toSq dO (actOfChoi J di dO X) = ofChoi (toT J : TMat di dO) (toSq di X) := by
+  ext a b
+  rw [ofChoi_apply]
+  simp only [toSq, actOfChoi, Toq.ChannelOps.sumN_eq_sum_fin, toT]
+
+/-- The entry-level generalised Choi map of the model is the map `choiMapSpec` of the specification. -/
+theorem choiMapAct_eq_spec (a b c : ℂ) (X : Nat → Nat → ℂ) :
+    toSq 3 (choiMapAct a b c X) = choiMapSpec a b c (toSq 3 X) := by
+  ext s t
+  fin_cases s <;> fin_cases t <;>
+    simp [toSq, choiMapAct, choiMapSpec, Matrix.sub_apply]
+
+end Toq.C06
+end Ties
+
 /-! ## end-to-end meaning of the deciders, corollaries for the constructors -/
 section Combined
 open Toq.ChannelProps Toq.ChanPropSpec Toq.ChanPropProofs Matrix
